@@ -112,6 +112,7 @@ type Field struct {
 	FieldAP                     bool // (pico.field).always_present
 	Custom                      Custom
 	CustomType, CustomSerialize string
+	Unpacked                    bool // [packed = false]: picobuf ignores the option and writes packed (valid; the reference writes unpacked)
 }
 
 // Msg is one message type.
@@ -229,6 +230,7 @@ func buildSchema(fd *descriptorpb.FileDescriptorProto) (*Schema, error) {
 					return nil, fmt.Errorf("%s.%s: message type %s not in this file", m.FullName, f.GetName(), f.GetTypeName())
 				}
 			}
+			fl.Unpacked = f.GetOptions() != nil && f.GetOptions().Packed != nil && !f.GetOptions().GetPacked()
 			o := protoparse.FieldOpts(f)
 			fl.FieldAP = o.AlwaysPresent
 			fl.CustomType, fl.CustomSerialize = o.CustomType, o.CustomSerialize
@@ -279,6 +281,32 @@ func (s *Schema) hasOpaque(i int) bool {
 }
 
 // hasMap reports whether message i (transitively) has a map field.
+// noRefBytes: the reference's bytes are not comparable byte for byte: maps (the reference writes default keys/values, the order
+// is Go's) or a repeated scalar declared [packed = false] (the reference honours the option, picobuf always packs)
+func (s *Schema) noRefBytes(i int) bool {
+	if s.hasMap(i) {
+		return true
+	}
+	seen := map[int]bool{}
+	var rec func(i int) bool
+	rec = func(i int) bool {
+		if seen[i] {
+			return false
+		}
+		seen[i] = true
+		for _, f := range s.Msgs[i].Fields {
+			if f.Unpacked {
+				return true
+			}
+			if f.Msg >= 0 && rec(f.Msg) {
+				return true
+			}
+		}
+		return false
+	}
+	return rec(i)
+}
+
 func (s *Schema) hasMap(i int) bool {
 	seen := map[int]bool{}
 	var rec func(i int) bool
